@@ -85,11 +85,11 @@ static int search_logger(const string& dir)
 					if (mode == 2)
 					{
 						map<unsigned, string> b2;
-						for (unsigned g = 0; g <= 12; ++g) { const string c(slurp(gen(base, g))); if (c != "<absent>") b2[g] = c; }
+						for (unsigned g = 0; g <= 1030; ++g) { const string c(slurp(gen(base, g))); if (c != "<absent>") b2[g] = c; }
 						fl->rotate(true);
 						check_shift("FileLogger::rotate(force)", base, "", count, b2, sibling);
 						map<unsigned, string> b3;
-						for (unsigned g = 0; g <= 12; ++g) { const string c(slurp(gen(base, g))); if (c != "<absent>") b3[g] = c; }
+						for (unsigned g = 0; g <= 1030; ++g) { const string c(slurp(gen(base, g))); if (c != "<absent>") b3[g] = c; }
 						fl->rotate();	// unforced again: append mode must be left alone
 						for (unsigned g = 1; g <= 12; ++g)
 							if (slurp(gen(base, g)) != (b3.count(g) ? b3[g] : string("<absent>")))
